@@ -39,19 +39,18 @@ def lstripSlash : Str → Str
 def rstripSlash (s : Str) : Str := (lstripSlash s.reverse).reverse
 
 /-- `bytes.splitlines()`: breaks at `\n`, `\r`, `\r\n`; no empty last line.
-`cur` is the line being collected (reversed). -/
-def splitlinesAux : Str → Str → List Str
-  | cur, [] => if cur = [] then [] else [cur.reverse]
-  | cur, c :: rest =>
-    if c = '\n' then cur.reverse :: splitlinesAux [] rest
-    else if c = '\r' then
-      match rest with
-      | d :: rest' => if d = '\n' then cur.reverse :: splitlinesAux [] rest'
-                      else cur.reverse :: splitlinesAux [] (d :: rest')
-      | [] => cur.reverse :: splitlinesAux [] []
-    else splitlinesAux (c :: cur) rest
+`cur` is the line being collected (reversed); `afterCR`: the previous byte was a `\r` that
+already ended a line (a directly following `\n` belongs to the same break). -/
+def splitlinesAux : Str → Bool → Str → List Str
+  | cur, _, [] => if cur = [] then [] else [cur.reverse]
+  | cur, afterCR, c :: rest =>
+    if c = '\n' then
+      if afterCR then splitlinesAux [] false rest
+      else cur.reverse :: splitlinesAux [] false rest
+    else if c = '\r' then cur.reverse :: splitlinesAux [] true rest
+    else splitlinesAux (c :: cur) false rest
 
-def splitlines (s : Str) : List Str := splitlinesAux [] s
+def splitlines (s : Str) : List Str := splitlinesAux [] false s
 
 /-- `PurePath(name).suffix` for a single path component (CPython 3.12 `pathlib`):
 `i = name.rfind('.')`; the suffix is `name[i:]` iff `0 < i < len(name) - 1`. -/
